@@ -199,7 +199,9 @@ JudgeGen(e) ==
   ELSE Expect(
        \* (CODE.RAND handed the list a[1], with a limit a[2] inside the configured maximum: the generator's answer lands on CODE)
        CASE m \in {"random_code", "code_rand_instr"} ->
-              IF a[2] < 2 THEN RetEq(e.ret, RNone)
+              \* (the instruction with a limit of exactly 1 may push one leaf: the alternative admitted in PushRand)
+              IF a[2] < 2 THEN RetEq(e.ret, RNone) \/ (m = "code_rand_instr" /\ a[2] = 1 /\ e.ret.t = "some" /\ Size(e.ret.v) = 1
+                                                       /\ ValidCode(e.ret.v, a[1]) /\ NamesOK(e.ret.v, a[3], a[4]))
               ELSE e.ret.t = "some" /\ Size(e.ret.v) >= 1 /\ Size(e.ret.v) <= a[2] - 1 /\ ValidCode(e.ret.v, a[1])
                    /\ NamesOK(e.ret.v, a[3], a[4])
          [] m = "random_code_with_size" -> e.ret.t = "some" /\ Size(e.ret.v) = a[2] /\ ValidCode(e.ret.v, a[1])
